@@ -128,6 +128,13 @@ pub fn run(run: &Run) {
             false
         }
     });
+    battery(run, "mark_neighbours", &mark_neighbour_strings(0), &|s, l| match check(run, s, l) {
+        Ok(()) => true,
+        Err(v) => {
+            run.violate(v);
+            false
+        }
+    });
     collisions(run, "fingerprint_collisions", &|s, l| match check(run, s, l) {
         Ok(()) => true,
         Err(v) => {
